@@ -206,4 +206,37 @@ theorem template_auto : ∀ (s : List Char) (skip pos : Nat) (ms : List RawMatch
       simp only [Bool.and_eq_true] at h
       exact .lit c (by simpa using h.1.1) (by simpa using h.1.2) (template_auto cs 0 (pos + 1) (m :: ms) h.2)
 
+/-! ## Term counts -/
+
+theorem termsOf_length : ∀ (ms : List RawMatch) (ts : List Term), termsOf ms = some ts → ts.length = ms.length
+  | [], ts, h => by simp [termsOf] at h; subst h; rfl
+  | m :: ms, ts, h => by
+    unfold termsOf at h
+    split at h
+    · rename_i ix _
+      cases ht : termsOf ms with
+      | none => rw [ht] at h; simp at h
+      | some ts' =>
+        rw [ht] at h; simp at h; subst h
+        simp [termsOf_length ms ts' ht]
+    · cases h
+
+theorem equationTerms_ok (s : List Char) (lt rt : List Term) (h : equationTerms s = .ok (lt, rt)) :
+    ∃ l r, splitAtEq s = some (l, r) ∧ lt.length = (scanTerms l).length ∧ rt.length = (scanTerms r).length := by
+  unfold equationTerms at h
+  split at h
+  · cases h
+  · rename_i l r hs
+    split at h
+    · cases h
+    · rename_i lt' hl
+      split at h
+      · cases h
+      · rename_i rt' hr
+        split at h
+        · cases h
+        · simp at h
+          obtain ⟨rfl, rfl⟩ := h
+          exact ⟨l, r, hs, termsOf_length _ _ hl, termsOf_length _ _ hr⟩
+
 end Fsic.Lx
